@@ -716,6 +716,7 @@ SHAPES = {
     'r4'    : T(ranks=4, cores_per_rank=1),
     'c4'    : T(ranks=1, cores_per_rank=4),
     'c0'    : T(ranks=1, cores_per_rank=0),
+    'r3c0'  : T(ranks=3, cores_per_rank=0),
     'g1'    : T(ranks=1, cores_per_rank=1, gpus_per_rank=1),
     'r2g1'  : T(ranks=2, cores_per_rank=1, gpus_per_rank=1),
     'g2'    : T(ranks=1, cores_per_rank=1, gpus_per_rank=2),
@@ -859,6 +860,12 @@ def scenarios(ctx_pid, quick):
     lm2 = ['l2', 'l1', 'r2l1', 'r2m1', 'm2', 'r3l1']
     for combo in itertools.product(lm2, repeat=2):
         add('lfsmem', 'L1x4lm', list(combo))
+
+    # cores_per_rank = 0 ("at least one core") on a partly occupied node
+    for combo in itertools.product(['c0', 'r3c0', 'c1'], repeat=2):
+        if set(combo) & {'c0', 'r3c0'}:
+            add('core', 'L1x4g2', list(combo))
+            add('core', 'L3x2',   list(combo))
 
     # ranks per node, tags -------------------------------------------------------
     for combo in itertools.product(['r2n1', 'r3n1', 'r3n2', 'c1'], repeat=2):
